@@ -69,14 +69,14 @@ genesis always supplies the two entries the code unwraps (the iterator yields `h
 for a header at `height`). -/
 theorem wtema_era_height (ct : ChainType) (height : Nat) (hv : ¬ headerVersion ct height < 5) :
     2 ≤ height :=
-  headerVersion_ge5 (by omega)
+  headerVersion_ge5 (ct := ct) (by omega)
 
 example : nextDifficulty .automatedTesting 13 [⟨120, 5, 0, false⟩, ⟨60, 5, 0, false⟩] =
-    some ⟨1, 20, 0, true⟩ := by decide
-example : nextDifficulty .automatedTesting 13 [⟨120, 5, 0, false⟩] = none := by decide
+    some ⟨1, 20, 0, true⟩ := by decide +kernel
+example : nextDifficulty .automatedTesting 13 [⟨120, 5, 0, false⟩] = none := by decide +kernel
 /-- the zero divisor: a timestamp 14340 s *before* its parent -/
 example : nextDifficulty .mainnet 2000000 [⟨100000, 5, 0, false⟩, ⟨114340, 5, 0, false⟩] = none := by
-  decide
+  decide +kernel
 
 /-! ## DMA bounds -/
 
@@ -108,23 +108,36 @@ theorem dma_bounds (ct : ChainType) (height : Nat) (cursor : List HDI) (hne : cu
     Nat.div_le_div_left hb.2 hp
   have h2 : x / dmaAdjTs (subW hi.ts lo.ts) ≤ x / (BLOCK_TIME_WINDOW / CLAMP_FACTOR) :=
     Nat.div_le_div_left hb.1 BTW_div_clamp_pos
+  have h3 : subW hi.ts lo.ts + (DMA_DAMP_FACTOR - 1) * BLOCK_TIME_WINDOW < 2^64 →
+      x / dmaAdjTs (subW hi.ts lo.ts) ≤
+      x / ((DMA_DAMP_FACTOR - 1) * BLOCK_TIME_WINDOW / DMA_DAMP_FACTOR) := fun hnw =>
+    Nat.div_le_div_left (dmaAdjTs_lower_nowrap _ hnw) (by decide)
+  revert h1 h2 h3
+  generalize x / dmaAdjTs (subW hi.ts lo.ts) = q
+  generalize x / (BLOCK_TIME_WINDOW * CLAMP_FACTOR) = q1
+  generalize x / (BLOCK_TIME_WINDOW / CLAMP_FACTOR) = q2
+  generalize x / ((DMA_DAMP_FACTOR - 1) * BLOCK_TIME_WINDOW / DMA_DAMP_FACTOR) = q3
+  generalize MIN_DMA_DIFFICULTY = m at hmin ⊢
+  intro h1 h2 h3
   refine ⟨by omega, by omega, by omega, ?_⟩
   intro hnw
-  have h3 : x / dmaAdjTs (subW hi.ts lo.ts) ≤
-      x / ((DMA_DAMP_FACTOR - 1) * BLOCK_TIME_WINDOW / DMA_DAMP_FACTOR) :=
-    Nat.div_le_div_left (dmaAdjTs_lower_nowrap _ hnw) (by decide)
+  have := h3 hnw
   omega
 
 /-- a longer time span never raises the DMA difficulty (non-wrapping spans) -/
 theorem dma_antitone_in_span (d d' s : Nat) (hdd : d ≤ d')
     (h : d' + (DMA_DAMP_FACTOR - 1) * BLOCK_TIME_WINDOW < 2^64) : dmaDiff d' s ≤ dmaDiff d s := by
   unfold dmaDiff fromNum
-  have := Nat.div_le_div_left (c := mulW s BLOCK_TIME_SEC) (dmaAdjTs_mono hdd h) (dmaAdjTs_pos d)
+  have := Nat.div_le_div_left (a := mulW s BLOCK_TIME_SEC) (dmaAdjTs_mono hdd h) (dmaAdjTs_pos d)
+  revert this
+  generalize mulW s BLOCK_TIME_SEC / dmaAdjTs d' = q'
+  generalize mulW s BLOCK_TIME_SEC / dmaAdjTs d = q
+  generalize MIN_DMA_DIFFICULTY = m
   omega
 
 /-- non-vacuity: one genesis entry, padded to 61; `60·1000·60/3600 = 1000` -/
-example : nextDmaDifficulty .mainnet 1 [⟨1000000, 1000, 1856, false⟩] = some ⟨1, 1000, 1856, true⟩ := by
-  decide
+example : nextDmaDifficulty .mainnet 1 [⟨1000000, 1000, 1856, false⟩] = some ⟨1, 1000, 1843, true⟩ := by
+  decide +kernel
 
 /-! ## WTEMA bounds -/
 
@@ -147,11 +160,18 @@ theorem wtema_bounds (ct : ChainType) (last prev : HDI) (rest : List HDI)
   have hpos : 0 < WTEMA_HALF_LIFE - BLOCK_TIME_SEC := by decide
   have h1 : x / (WTEMA_HALF_LIFE - BLOCK_TIME_SEC + (last.ts - prev.ts)) ≤ x / (WTEMA_HALF_LIFE - BLOCK_TIME_SEC) :=
     Nat.div_le_div_left (by omega) hpos
-  refine ⟨by omega, by omega, rfl, rfl, by omega, ?_⟩
-  intro hlt
-  have h2 : x / (WTEMA_HALF_LIFE - BLOCK_TIME_SEC + (last.ts - prev.ts)) ≤
-      x / (WTEMA_HALF_LIFE - BLOCK_TIME_SEC + 1) :=
+  have h2 : prev.ts < last.ts → x / (WTEMA_HALF_LIFE - BLOCK_TIME_SEC + (last.ts - prev.ts)) ≤
+      x / (WTEMA_HALF_LIFE - BLOCK_TIME_SEC + 1) := fun hlt =>
     Nat.div_le_div_left (by omega) (by omega)
+  revert h1 h2
+  generalize x / (WTEMA_HALF_LIFE - BLOCK_TIME_SEC + (last.ts - prev.ts)) = q
+  generalize x / (WTEMA_HALF_LIFE - BLOCK_TIME_SEC) = q1
+  generalize x / (WTEMA_HALF_LIFE - BLOCK_TIME_SEC + 1) = q2
+  generalize minWtemaGraphWeight ct = m
+  intro h1 h2
+  refine ⟨by omega, by omega, trivial, trivial, by omega, ?_⟩
+  intro hlt
+  have := h2 hlt
   omega
 
 /-- monotone in block time: a later timestamp on the last header (same difficulty) never gives a
@@ -162,14 +182,18 @@ theorem wtema_antitone_in_block_time (ct : ChainType) (last last' prev : HDI)
     (wtemaOf ct last' prev).diff ≤ (wtemaOf ct last prev).diff := by
   simp only [wtemaOf, wtema_den_eq hle (by omega), wtema_den_eq (Nat.le_trans hle hll) hr, fromNum, hd]
   have hpos : 0 < WTEMA_HALF_LIFE - BLOCK_TIME_SEC := by decide
-  have := Nat.div_le_div_left (c := mulW last.diff WTEMA_HALF_LIFE)
+  have := Nat.div_le_div_left (a := mulW last.diff WTEMA_HALF_LIFE)
     (show WTEMA_HALF_LIFE - BLOCK_TIME_SEC + (last.ts - prev.ts) ≤
           WTEMA_HALF_LIFE - BLOCK_TIME_SEC + (last'.ts - prev.ts) by omega) (by omega)
+  revert this
+  generalize mulW last.diff WTEMA_HALF_LIFE / (WTEMA_HALF_LIFE - BLOCK_TIME_SEC + (last'.ts - prev.ts)) = q'
+  generalize mulW last.diff WTEMA_HALF_LIFE / (WTEMA_HALF_LIFE - BLOCK_TIME_SEC + (last.ts - prev.ts)) = q
+  generalize minWtemaGraphWeight ct = m
   omega
 
 /-- a block on target (60 s) keeps the difficulty: non-vacuity of `wtema_bounds` -/
 example : nextWtemaDifficulty .mainnet [⟨1060, 1000000, 0, false⟩, ⟨1000, 999, 0, false⟩] =
-    some ⟨1, 1000000, 0, true⟩ := by decide
+    some ⟨1, 1000000, 0, true⟩ := by decide +kernel
 
 /-! ## secondary scaling bounds -/
 
@@ -193,13 +217,13 @@ theorem scaling_bounds (height : Nat) (data : List HDI) :
     exact ⟨rfl, Nat.le_max_left _ _⟩
 
 /-- The no-truncation hypothesis of `scaling_bounds` is needed: 60 entries with secondary
-scalings ≈ 0.92·2^32 and no secondary block give scale `2^32 + 3`, which the `as u32` cast
-turns into 3 < `MIN_AR_SCALE` (reproduced on the real function by the harness). -/
+scalings ≈ 0.92·2^32 and no secondary block give scale `2^32`, which the `as u32` cast
+turns into 0 < `MIN_AR_SCALE` (reproduced on the real function by the harness). -/
 example : secondaryPowScaling 0
-    (List.replicate 59 ⟨0, 1, 3964080781, false⟩ ++ [⟨0, 1, 3964080815, false⟩]) = some 3 := by
-  decide
+    (List.replicate 59 ⟨0, 1, 3964095741, false⟩ ++ [⟨0, 1, 3964095762, false⟩]) = some 0 := by
+  decide +kernel
 
-example : secondaryPowScaling 0 (List.replicate 60 ⟨0, 1, 1856, true⟩) = some 1825 := by decide
+example : secondaryPowScaling 0 (List.replicate 60 ⟨0, 1, 1856, true⟩) = some 1840 := by decide +kernel
 
 /-! ## header versions -/
 
@@ -215,8 +239,8 @@ theorem header_version_schedule (h i : Nat) (hlt : h / i < 2^16 - 1) :
   rw [Nat.mod_eq_of_lt (by omega)]
 
 /-- the `as u16` cast wraps: on the testing chains height 196605 is scheduled version 0 -/
-example : headerVersion .automatedTesting (65535 * TESTING_HARD_FORK_INTERVAL) = 0 := by decide
-example : headerVersion .mainnet (4 * HARD_FORK_INTERVAL) = 5 := by decide
-example : headerVersion .mainnet (4 * HARD_FORK_INTERVAL - 1) = 4 := by decide
+example : headerVersion .automatedTesting (65535 * TESTING_HARD_FORK_INTERVAL) = 0 := by decide +kernel
+example : headerVersion .mainnet (4 * HARD_FORK_INTERVAL) = 5 := by decide +kernel
+example : headerVersion .mainnet (4 * HARD_FORK_INTERVAL - 1) = 4 := by decide +kernel
 
 end GV.Props.C04
